@@ -156,9 +156,17 @@ def run_sequence(kind, ops, res: CaseResult):
                     return False
             return True
         last_store = {}
+        ops_seen = []
+
+        # a second cache OBJECT over the same directory (another component of the application, another process): what one stores the other finds
+        base2 = make_cache(kind, root / 'c') if root else None
 
         def cache_for(sub):
             c = base
+            if base2 is not None and (len(ops_seen) * 7 + len(sub)) % 3 == 1:
+                c = base2
+                res.count('ops_through_a_second_cache_object')
+            ops_seen.append(1)
             for s in sub:
                 c = c.subcache(s)
             if sub:
